@@ -602,6 +602,14 @@ def _only_logging(parents, node):
     return logs_only(par.body) and logs_only(par.orelse)
 
 
+def _parents_of(root):
+    out = {}
+    for par in ast.walk(root):
+        for child in ast.iter_child_nodes(par):
+            out[id(child)] = par
+    return out
+
+
 def _check_nan_both(ctx, tst):
     meth = tst.methods.get('student_test')
     if meth is None:
@@ -686,6 +694,27 @@ def _check_nan_both(ctx, tst):
                 n += 1
                 judge(cond, meth.where(node),
                       f'store of constant {txt(node.value)}')
+        if isinstance(node, ast.If) and any(isinstance(s, ast.Return)
+                                            for s in node.body):
+            # the tests of the enclosing ifs belong to the condition of the
+            # return (`if isnan(a): if isnan(b): return 0`)
+            outer = []
+            cur = node
+            chain = _parents_of(meth.node)
+            while chain.get(id(cur)) is not None:
+                par = chain[id(cur)]
+                if isinstance(par, ast.If) and any(cur is s for s in
+                                                   par.body):
+                    outer.append(par.test)
+                cur = par
+            full = node.test if not outer else ast.BoolOp(
+                op=ast.And(), values=list(reversed(outer)) + [node.test])
+            if not isnan_atoms(inline(full)):
+                continue
+            n += 1
+            judge(full, meth.where(node), 'early return of a passing '
+                  'constant')
+            continue
         if isinstance(node, ast.If) and isnan_atoms(inline(node.test)) and \
                 any(isinstance(s, ast.Return) for s in node.body):
             n += 1
